@@ -196,8 +196,9 @@ impl Core {
             if let Some(query) = self.iterative_queries.remove(id) {
                 self.cache_iterative_query(&query, closest_nodes);
 
-                should_ping_alleged_new_address =
-                    self.update_address_votes_from_iterative_query(&query);
+                if let Some(new_address) = self.update_address_votes_from_iterative_query(&query) {
+                    should_ping_alleged_new_address = Some(new_address);
+                }
             };
         }
 
@@ -383,19 +384,13 @@ impl Core {
         query: &IterativeQuery,
     ) -> Option<SocketAddrV4> {
         if let Some(new_address) = query.best_address() {
-            self.public_address = Some(new_address);
-
-            if self.public_address.is_none()
-                || new_address
-                    != self
-                        .public_address
-                        .expect("self.public_address is not None")
-            {
+            if self.public_address != Some(new_address) {
                 trace!(
                     ?new_address,
                     "Query responses suggest a different public_address, trying to confirm.."
                 );
 
+                self.public_address = Some(new_address);
                 self.firewalled = true;
                 return Some(new_address);
             }
